@@ -64,17 +64,20 @@ impl SchemaConverter {
             emitter.blank_line();
         }
 
-        let mut root_type_name = "schema.root".to_string();
-        // Emit the root schema as a class
-        if let Some(title) = walker.root_title() {
-            root_type_name = format!("{}{}", self.type_prefix, title);
-            let root = walker.root_schema();
-            if root.get("properties").is_some() {
-                let prefixed = format!("{}{}", self.type_prefix, title);
-                self.emit_object_class(&walker, &mut emitter, &prefixed, root);
-                emitter.blank_line();
-            }
+        // Emit the root schema under its title (or `root` when it has none),
+        // so that the reported root type always exists.
+        let root_type_name = format!(
+            "{}{}",
+            self.type_prefix,
+            walker.root_title().unwrap_or("root")
+        );
+        let root = walker.root_schema();
+        if root.get("properties").is_some() {
+            self.emit_object_class(&walker, &mut emitter, &root_type_name, root);
+        } else {
+            self.emit_definition(&walker, &mut emitter, &root_type_name, root);
         }
+        emitter.blank_line();
 
         ConvertResult {
             annotation_text: emitter.finish(),
@@ -645,6 +648,23 @@ mod tests {
 
         let output = converter().convert(&schema).annotation_text;
         assert!(output.contains("---@field [\"$schema\"] string?"));
+    }
+
+    #[test]
+    fn test_root_type_is_always_declared() {
+        // No title: the root is declared under the default name.
+        let result = converter().convert(&json!({ "type": "object", "properties": {} }));
+        assert_eq!(result.root_type_name, "schema.root");
+        assert!(result.annotation_text.contains("---@class schema.root"));
+
+        // Title but no properties: the root becomes an alias of its type.
+        let result = converter().convert(&json!({ "title": "Name", "type": "string" }));
+        assert_eq!(result.root_type_name, "schema.Name");
+        assert!(
+            result
+                .annotation_text
+                .contains("---@alias schema.Name\n---| string")
+        );
     }
 
     #[test]
